@@ -20,6 +20,8 @@ pub struct DuoFamily {
     pub nontrivial: NontrivFn,
     pub rule: &'static str,
     pub exhaustive_thorough: bool,
+    /// > 1: crash-point sweep, `index % stride` selects the fault's trigger step
+    pub stride: u64,
 }
 impl Family for DuoFamily {
     fn name(&self) -> &'static str {
@@ -28,9 +30,12 @@ impl Family for DuoFamily {
     fn runs(&self, tier: Tier) -> u64 {
         if tier == Tier::Quick { self.quick } else { self.thorough }
     }
-    fn generate(&self, seed: u64, index: u64, tier: Tier) -> Value {
+    fn generate(&self, batch_seed: u64, index: u64, tier: Tier) -> (Value, u64) {
+        // sweep families keep plan and schedule fixed over a group of `stride` indices
+        let group = if self.stride > 1 { index / self.stride } else { index };
+        let seed = simcore::prng::mix(batch_seed, self.name, group);
         let mut r = Prng::new(seed);
-        serde_json::to_value((self.generate)(&mut r, index, tier)).expect("plan")
+        (serde_json::to_value((self.generate)(&mut r, index, tier)).expect("plan"), seed)
     }
     fn exec(&self, plan: &Value, sched: &Sched, record: bool) -> Outcome {
         let Ok(plan) = serde_json::from_value::<Plan>(plan.clone()) else { return Outcome::default() };
@@ -131,7 +136,7 @@ pub fn c02() -> Check {
         level: "exploration",
         families: vec![Box::new(DuoFamily {
             name: "streams",
-            quick: 40_000,
+            quick: 300_000,
             thorough: 3_000_000,
             generate: gen_c02,
             cfg: OracleCfg::default(),
@@ -139,6 +144,7 @@ pub fn c02() -> Check {
             nontrivial: nt_data,
             rule: "1-4 streams opened from either side, per direction a writer (plain/vectored writes incl. empty slices, bursts beyond the window, flush, shutdown) and a reader (read with buffers 1..64 or fill_buf+partial consume); (rwnd, threshold) drawn independently per side from {1,2,3,4,8,16}^2, link window from {1,2,8,inf}, optional latency, schedule weights per run. Non-trivial: at least 4 Push and 2 Acknowledge frames crossed the wire.",
             exhaustive_thorough: false,
+            stride: 1,
         })],
         required_probes: vec!["writer-parked-on-credit", "window-exactly-exhausted", "multiple-streams", "link-backpressure"],
         assumptions: vec!["the WebSocket below the multiplexor is reliable and ordered per direction (PROTOCOL.md); the in-memory link implements tokio-tungstenite's observable contract", "one poll of a task is atomic (single-threaded scheduling; finer interleavings are C12's)"],
@@ -147,9 +153,646 @@ pub fn c02() -> Check {
     }
 }
 
+
+fn duo_check(property: &'static str, level: &'static str, families: Vec<Box<dyn Family>>, required_probes: Vec<&'static str>) -> Check {
+    let c = c02();
+    Check { property, engine: "muxsim", level, families, required_probes, assumptions: c.assumptions, real: c.real, stub: c.stub }
+}
+fn fam(name: &'static str, quick: u64, thorough: u64, generate: GenFn, cfg: OracleCfg, extra: Option<ExtraFn>, nontrivial: NontrivFn, rule: &'static str) -> Box<dyn Family> {
+    Box::new(DuoFamily { name, quick, thorough, generate, cfg, extra, nontrivial, rule, exhaustive_thorough: false, stride: 1 })
+}
+
+// ------------------------------------------------------------------ C03
+
+const HOLDING: Prof = Prof { hold: 1000, p_yield: 350, max_writes: 30, ..CLEAN };
+fn gen_c03(r: &mut Prng, _i: u64, _t: Tier) -> Plan {
+    let mut p = base_plan(r);
+    // small windows make writers race with incoming acknowledgements
+    if r.chance(1, 2) {
+        for e in &mut p.eps {
+            e.rwnd = *r.pick(&[1u32, 2, 3]);
+        }
+    }
+    let n = 1 + r.below(3);
+    for _ in 0..n {
+        let mut s = gen_stream(r, &HOLDING);
+        // slow readers: acknowledgements must wait for consumption
+        if r.chance(1, 3) {
+            let side = r.below(2);
+            let mut v = vec![];
+            for _ in 0..(2 + r.below(6)) {
+                v.push(ROp::Yield(3 + r.below(12)));
+                v.push(ROp::Read { buf: 1 + r.below(8), times: 1 + r.below(3) });
+            }
+            v.push(ROp::ReadEof { buf: 1 + r.below(32) });
+            s.sides[side].r = v;
+        }
+        p.streams.push(s);
+    }
+    p
+}
+fn nt_c03(_r: &DuoRun, wm: &WireModel, _e: &EndInfo) -> bool {
+    wm.n_ack >= 2 && wm.insts.iter().any(|i| (0..2).any(|x| i.win[1 - x].is_some_and(|w| i.max_outstanding[x] == w as u64)))
+}
+pub fn c03() -> Check {
+    duo_check(
+        "C03",
+        "exploration",
+        vec![fam("credit", 300000, 3_000_000, gen_c03, OracleCfg::default(), None, nt_c03, "as C02, but stream objects are kept alive until the transfer phase is quiescent (every Reset seen is unexplained by construction), small windows and slow readers so that writers race with acknowledgements. Black-box accountant from the wire monitor: outstanding Push <= advertised window at every Push; one non-empty write = one Push; Acknowledge totals never exceed frames consumed / frames the application started consuming (+1); no Reset of a live established flow. Non-trivial: some sender exhausted the advertised window exactly and >=2 Acknowledge frames crossed the wire.")],
+        vec!["writer-parked-on-credit", "window-exactly-exhausted", "ack-crossing-push"],
+    )
+}
+
+// ------------------------------------------------------------------ C04
+
+const BURST: Prof = Prof { max_writes: 40, max_size: 24, p_yield: 100, max_buf: 16, ..CLEAN };
+fn pair_of(i: u64) -> (u32, u32) {
+    (WINDOWS[(i % 6) as usize], WINDOWS[((i / 6) % 6) as usize])
+}
+fn gen_c04(r: &mut Prng, i: u64, _t: Tier) -> Plan {
+    let mut p = base_plan(r);
+    // deterministic sweep of all 36 x 36 (rwnd, threshold) pairs by run index
+    let (ra, ta) = pair_of(i);
+    let (rb, tb) = pair_of(i / 36);
+    p.eps[0].rwnd = ra;
+    p.eps[0].threshold = ta;
+    p.eps[1].rwnd = rb;
+    p.eps[1].threshold = tb;
+    for e in &mut p.eps {
+        e.stream_buf = *r.pick(&[1usize, 2, 16]);
+    }
+    let n = 1 + r.below(3);
+    for _ in 0..n {
+        let mut s = gen_stream(r, &BURST);
+        // bursts longer than any window
+        for side in 0..2 {
+            if r.chance(2, 3) {
+                let extra = 17 + r.below(30);
+                let mut w: Vec<WOp> = (0..extra).map(|_| WOp::Write(1 + r.below(24))).collect();
+                w.push(WOp::Shutdown);
+                s.sides[side].w = w;
+            }
+        }
+        p.streams.push(s);
+    }
+    p
+}
+/// second family: one stream whose reader is absent or stops early, beside a served stream,
+/// a fresh stream request and a datagram exchange
+fn gen_c04_starved(r: &mut Prng, _i: u64, _t: Tier) -> Plan {
+    let mut p = base_plan(r);
+    for e in &mut p.eps {
+        e.stream_buf = 16;
+        e.dgram_buf = 512;
+    }
+    let starved_side = r.below(2);
+    let mut s0 = gen_stream(r, &BURST);
+    s0.delay = 0;
+    let w: Vec<WOp> = (0..(20 + r.below(20))).map(|_| WOp::Write(1 + r.below(24))).collect();
+    s0.sides[1 - starved_side].w = w;
+    s0.sides[starved_side].r = if r.chance(1, 2) { vec![] } else { vec![ROp::Read { buf: 1 + r.below(8), times: 1 }] };
+    s0.sides[starved_side].hold = true;
+    s0.sides[1 - starved_side].hold = true;
+    s0.sides[starved_side].w = vec![WOp::Write(3), WOp::Shutdown];
+    s0.sides[1 - starved_side].r = vec![ROp::ReadEof { buf: 8 }];
+    p.streams.push(s0);
+    let mut s1 = gen_stream(r, &BURST);
+    s1.delay = r.below(10);
+    p.streams.push(s1);
+    let mut s2 = gen_stream(r, &BURST);
+    s2.delay = 20 + r.below(60);
+    p.streams.push(s2);
+    for from in 0..2 {
+        let mut tx = gen_dgtx(r, from, 6, 4);
+        for it in &mut tx.items {
+            it.hlen = it.hlen.min(255);
+            it.yields += 2;
+        }
+        p.dg_tx.push(tx);
+        p.dg_rx.push(DgRx { ep: from, pace: vec![0], take: None });
+    }
+    p
+}
+fn x_c04_starved(r: &DuoRun, _wm: &WireModel, ei: &EndInfo, o: &mut Outcome) {
+    // every accepted datagram reaches the (always receiving, never full) application
+    let led = r.led.borrow();
+    if ei.any_fault {
+        return;
+    }
+    for from in 0..2 {
+        let acc = led.dg.sent[from].iter().filter(|x| x.2.is_ok()).count();
+        let got = led.dg.taken[1 - from].len();
+        if got < acc {
+            o.violate("C04:datagram-stall", format!("endpoint {from} sent {acc} datagrams, the always-receiving peer application got {got} although its 512-slot buffer never filled — a starved stream delayed datagrams"));
+        }
+    }
+    let st = &led.streams[0];
+    if st.sides.iter().any(|s| s.writes.iter().any(|w| w.ret.is_none())) {
+        o.probe("starved-writer-parked", 1);
+    }
+}
+fn nt_c04(r: &DuoRun, wm: &WireModel, _e: &EndInfo) -> bool {
+    wm.n_push >= 8 && r.led.borrow().streams.iter().any(|s| s.sides.iter().any(|sd| sd.writes.iter().any(|w| w.ret.is_some_and(|t| t > w.inv + 2))))
+}
+pub fn c04() -> Check {
+    let mut sweep = DuoFamily { name: "pairs", quick: 100 * 1296, thorough: 1296 * 2000, generate: gen_c04, cfg: OracleCfg::default(), extra: None, nontrivial: nt_c04, rule: "all 36 x 36 (rwnd, threshold) pairs from {1,2,3,4,8,16}^2 on the two sides are enumerated by run index (each pair several times with fresh workloads and schedules), writers send bursts longer than any window, every reader reads to end-of-stream, acceptors keep accepting. Liveness = at exact quiescence no write is pending whose peer keeps reading, no reader is stuck behind accepted bytes or a completed shutdown, no open is pending. Non-trivial: a writer was parked on credit and >=8 Push frames crossed.", exhaustive_thorough: false, stride: 1 };
+    sweep.exhaustive_thorough = false;
+    duo_check(
+        "C04",
+        "exploration",
+        vec![Box::new(sweep), fam("starved", 150000, 1_000_000, gen_c04_starved, OracleCfg::default(), Some(x_c04_starved), nt_c04, "one stream whose reader is absent or stops after one frame (kept alive, so no Reset unblocks it) beside a normally served stream, a stream opened later and datagram exchanges in both directions: only the starved stream's writer may pend at quiescence.")],
+        vec!["writer-parked-on-credit", "starved-writer-parked"],
+    )
+}
+
+// ------------------------------------------------------------------ C05
+
+const HISTORIES: Prof = Prof { max_writes: 12, max_size: 24, p_empty: 200, p_vectored: 300, p_flush: 80, p_yield: 250, p_shutdown: 700, p_write_after_shutdown: 400, p_drop_mid: 150, p_read_eof: 700, p_fill: 400, p_reader_absent: 80, hold: 150, max_buf: 32 };
+fn gen_c05(r: &mut Prng, _i: u64, _t: Tier) -> Plan {
+    let mut p = base_plan(r);
+    let n = 1 + r.below(3);
+    for _ in 0..n {
+        let mut s = gen_stream(r, &HISTORIES);
+        // vectored writes whose slices are all empty
+        if r.chance(1, 4) {
+            let side = r.below(2);
+            let at = r.below(s.sides[side].w.len() + 1);
+            s.sides[side].w.insert(at.min(s.sides[side].w.iter().position(|o| *o == WOp::Shutdown || *o == WOp::Drop).unwrap_or(usize::MAX)), WOp::WriteV(vec![0; 1 + r.below(3)]));
+        }
+        p.streams.push(s);
+    }
+    p
+}
+fn nt_c05(r: &DuoRun, _wm: &WireModel, _e: &EndInfo) -> bool {
+    r.led.borrow().streams.iter().any(|s| s.sides.iter().any(|sd| sd.eof.is_some()))
+}
+fn x_c05(r: &DuoRun, _wm: &WireModel, _e: &EndInfo, o: &mut Outcome) {
+    let led = r.led.borrow();
+    let mut empties = 0;
+    let mut halfclose = 0;
+    for s in &led.streams {
+        for (i, sd) in s.sides.iter().enumerate() {
+            empties += sd.writes.iter().filter(|w| w.n == 0 && matches!(w.res, Some(Ok(_)))).count() as u64;
+            // half-close exercised: data read on this side after its own shutdown completed
+            if let Some(sh) = sd.shutdown_ret {
+                if sd.reads.iter().any(|(q, _)| *q > sh) && s.sides[1 - i].accepted > 0 {
+                    halfclose += 1;
+                }
+            }
+        }
+    }
+    o.probe("zero-length-write", empties);
+    o.probe("read-after-own-shutdown", halfclose);
+}
+pub fn c05() -> Check {
+    duo_check(
+        "C05",
+        "exploration",
+        vec![fam("histories", 400000, 3_000_000, gen_c05, OracleCfg::default(), Some(x_c05), nt_c05, "per stream end a seeded history over write(n>=0), write_vectored(incl. all-empty), flush, shutdown (also repeated), writes after shutdown, drop, read(k), fill_buf+consume, read-to-EOF, reader stopping early. A read returning 0 needs a terminating event of the peer's write side with a smaller sequence number; after a clean shutdown the reader must have received everything written before it; writes after local shutdown / consumed peer Reset must fail with BrokenPipe; no Push after Finish on the wire. Non-trivial: some reader reached end-of-stream.")],
+        vec!["zero-length-write", "read-after-own-shutdown", "reset-on-wire"],
+    )
+}
+
+// ------------------------------------------------------------------ C06
+
+fn gen_close_side(r: &mut Prng, style: usize) -> SidePlan {
+    // style: 0 = finish + read to EOF then drop, 1 = abort after some traffic, 2 = abort at once,
+    // 3 = shutdown then drop without reading, 4 = reader drops mid-way
+    let nw = r.below(10);
+    let mut w: Vec<WOp> = (0..nw).map(|_| WOp::Write(1 + r.below(20))).collect();
+    if r.chance(1, 3) {
+        w.insert(r.below(w.len() + 1), WOp::Yield(1 + r.below(5)));
+    }
+    let rd = |r: &mut Prng| if r.chance(1, 2) { ROp::ReadEof { buf: 1 + r.below(32) } } else { ROp::FillEof { consume: r.below(16) } };
+    match style {
+        0 => {
+            w.push(WOp::Shutdown);
+            SidePlan { w, r: vec![rd(r)], hold: false }
+        }
+        1 => {
+            w.push(WOp::Drop);
+            SidePlan { w, r: vec![ROp::Read { buf: 1 + r.below(16), times: r.below(4) }, rd(r)], hold: false }
+        }
+        2 => SidePlan { w: vec![WOp::Drop], r: vec![], hold: false },
+        3 => {
+            w.push(WOp::Shutdown);
+            SidePlan { w, r: vec![ROp::Read { buf: 4, times: r.below(3) }], hold: false }
+        }
+        _ => {
+            w.push(WOp::Shutdown);
+            SidePlan { w, r: vec![ROp::Read { buf: 1 + r.below(8), times: 1 + r.below(3) }, ROp::Drop], hold: false }
+        }
+    }
+}
+const CYCLE_ID: u32 = 0x0c06_0001;
+fn gen_c06(r: &mut Prng, _i: u64, t: Tier) -> Plan {
+    let mut p = base_plan(r);
+    p.probe_leaks = true;
+    let cycles = 1 + r.below(if t == Tier::Quick { 6 } else { 30 });
+    // endpoint 0 re-opens with the same flow id every cycle; bystanders come from endpoint 1
+    let reuse = r.chance(3, 4);
+    if reuse {
+        p.eps[0].ids = vec![CYCLE_ID; cycles];
+    }
+    for k in 0..cycles {
+        let a = r.below(5);
+        let b = r.below(5);
+        p.streams.push(StreamPlan { opener: 0, port: k as u16, pad: r.below(4), delay: r.below(3), after: if k > 0 { Some(k - 1) } else { None }, raw_host: None, sides: [gen_close_side(r, a), gen_close_side(r, b)] });
+    }
+    for _ in 0..r.below(3) {
+        let mut s = gen_stream(r, &CLEAN);
+        s.opener = 1;
+        p.streams.push(s);
+    }
+    p
+}
+fn x_c06(r: &DuoRun, _wm: &WireModel, ei: &EndInfo, o: &mut Outcome) {
+    if ei.any_fault || r.plan.eps[0].ids.is_empty() {
+        return;
+    }
+    let led = r.led.borrow();
+    let l = r.link.lock().unwrap();
+    // re-open with the scripted id: both ends have let go and the system went quiescent in
+    // between, so the id must be free at both endpoints: exactly one Connect(X), answered by
+    // one Acknowledge(X), no Reset, no retry
+    let cycles = r.plan.eps[0].ids.len();
+    let mut reopened = 0;
+    for k in 0..cycles.min(led.streams.len()) {
+        let s = &led.streams[k];
+        let Some(inv) = s.open_inv else { continue };
+        let host = r.plan.streams[k].host(k);
+        let connects: Vec<(u64, u32)> = l.evs.iter().filter(|e| e.stage == Stage::Sent && e.from == 0).filter_map(|e| match &*e.w { Wire::Frame(RFrame::Connect { id, host: h, .. }) if *h == host => Some((e.seq, *id)), _ => None }).collect();
+        let want = r.plan.eps[0].ids[k];
+        if connects.len() != 1 || connects[0].1 != want {
+            o.violate("C06:id-not-free", format!("cycle {k}: both applications had let go of the previous stream with flow id {want:x} and the system was quiescent, yet re-opening produced Connect frames {:x?} (expected exactly one, with that id)", connects.iter().map(|c| c.1).collect::<Vec<_>>()));
+            continue;
+        }
+        // the handshake window: from the Connect to the first Acknowledge(X) the peer sends after it
+        let c = connects[0].0;
+        let ack = l.evs.iter().find(|e| e.stage == Stage::Sent && e.from == 1 && e.seq > c && matches!(&*e.w, Wire::Frame(RFrame::Ack { id, .. }) if *id == want)).map(|e| e.seq);
+        let resets = l.evs.iter().filter(|e| e.stage == Stage::Sent && e.from == 1 && e.seq > c && e.seq < ack.unwrap_or(u64::MAX) && matches!(&*e.w, Wire::Frame(RFrame::Reset { id }) if *id == want)).count();
+        let _ = inv;
+        if !matches!(s.open_ret, Some((_, Ok(())))) || resets > 0 || ack.is_none() {
+            o.violate("C06:reopen-failed", format!("cycle {k}: re-opening flow id {want:x} after both ends let go returned {:?}; the peer answered the Connect with {resets} Reset frames and {} Acknowledge", s.open_ret, if ack.is_some() { "an" } else { "no" }));
+        }
+        if k > 0 {
+            reopened += 1;
+        }
+    }
+    o.probe("same-id-reopened", reopened);
+}
+fn nt_c06(r: &DuoRun, wm: &WireModel, _e: &EndInfo) -> bool {
+    wm.n_reset > 0 && r.led.borrow().streams.iter().filter(|s| s.sides.iter().all(|sd| sd.dropped.is_some())).count() >= 2
+}
+pub fn c06() -> Check {
+    duo_check(
+        "C06",
+        "exploration",
+        vec![fam("cycles", 100000, 600_000, gen_c06, OracleCfg::default(), Some(x_c06), nt_c06, "1..30 open/transfer/close cycles on one connection with every close style per side (finish+read to EOF, abort after traffic, abort at once, shutdown then drop unread, reader drops mid-way) while bystander streams carry checked traffic; a scripted flow-id RNG forces each re-open to use the same id, only after both applications dropped the previous stream and the system went quiescent. Oracles: peer of an aborted stream reads a prefix then EOF and its later writes fail; exactly one Connect(X)/Acknowledge(X) per re-open, no Reset; byte/credit models of the new stream start fresh; black-box leak probe (Acknowledge(id,0) for every id ever used must draw a Reset). Non-trivial: >=2 streams released by both ends and a Reset crossed the wire.")],
+        vec!["same-id-reopened", "leak-probes", "reset-on-wire"],
+    )
+}
+
+// ------------------------------------------------------------------ C11
+
+fn gen_c11(r: &mut Prng, _i: u64, _t: Tier) -> Plan {
+    let mut p = base_plan(r);
+    for from in 0..2 {
+        if from == 1 && r.chance(1, 2) {
+            continue;
+        }
+        let cap = p.eps[1 - from].dgram_buf;
+        let burst = (1 + r.below(4)) * cap.min(24) + r.below(3);
+        let mut tx = gen_dgtx(r, from, burst, 0);
+        for it in &mut tx.items {
+            if r.chance(1, 25) {
+                it.hlen = 256 + r.below(45);
+            }
+            if r.chance(1, 3) {
+                it.len = r.below(5);
+            }
+        }
+        p.dg_tx.push(tx);
+        if r.chance(1, 3) {
+            p.dg_tx.push(gen_dgtx(r, from, 4, 0));
+        }
+        p.dg_rx.push(DgRx { ep: 1 - from, pace: (0..(1 + r.below(4))).map(|_| r.below(6)).collect(), take: if r.chance(1, 6) { Some(r.below(4)) } else { None } });
+    }
+    for _ in 0..r.below(3) {
+        p.streams.push(gen_stream(r, &CLEAN));
+    }
+    p
+}
+fn x_c11(r: &DuoRun, _wm: &WireModel, _ei: &EndInfo, o: &mut Outcome) {
+    // stream traffic on the same connection must be neither blocked nor corrupted
+    let disturbed: Vec<String> = o.violations.iter().filter(|v| v.class.starts_with("C02:") || v.class.starts_with("C04:") || v.class.starts_with("C03:")).map(|v| format!("{}: {}", v.class, v.msg)).collect();
+    if let Some(d) = disturbed.first() {
+        o.violate("C11:stream-disturbed", format!("stream traffic beside datagram bursts was disturbed: {d}"));
+    }
+    let led = r.led.borrow();
+    let short = led.dg.sent.iter().flatten().filter(|x| x.1.data.len() < 4 && x.2.is_ok()).count() as u64;
+    let long = led.dg.sent.iter().flatten().filter(|x| x.1.host.len() > 255).count() as u64;
+    o.probe("datagram-payload-under-4-bytes", short);
+    o.probe("datagram-host-over-255", long);
+    o.probe("datagram-delivered", led.dg.taken.iter().map(|t| t.len() as u64).sum());
+}
+fn nt_c11(r: &DuoRun, _wm: &WireModel, _e: &EndInfo) -> bool {
+    r.led.borrow().dg.taken.iter().map(|t| t.len()).sum::<usize>() >= 2
+}
+pub fn c11() -> Check {
+    duo_check(
+        "C11",
+        "exploration",
+        vec![fam("bursts", 300000, 2_000_000, gen_c11, OracleCfg::default(), Some(x_c11), nt_c11, "datagram senders on one or both sides: host length 0..300, payload 0,1,2,3,4..64 KiB, flow ids incl. 0 and u32::MAX, all ports, bursts of 1..4x datagram_buffer_size (sizes 1,2,8,512); receivers drain at a seeded pace or stop; 0-2 checked streams in parallel. Oracle: wire frames = accepted datagrams in order; the receiving application's sequence equals an exact bounded-queue model evaluated on the global event order (a datagram may be missing only if the buffer was full at the instant its frame was consumed); >255-byte hosts refused with DatagramHostTooLong and absent from the wire; the connection task never returns; stream models hold. Non-trivial: >=2 datagrams delivered.")],
+        vec!["dgram-legit-drop", "dgram-buffer-exactly-full", "datagram-payload-under-4-bytes", "datagram-host-over-255"],
+    )
+}
+
+// ------------------------------------------------------------------ C15
+
+fn gen_binds(r: &mut Prng, p: &mut Plan, max: usize) {
+    for from in 0..2 {
+        if r.chance(1, 2) && from == 1 {
+            continue;
+        }
+        let to = 1 - from;
+        p.eps[to].bind_buf = *r.pick(&[0usize, 1, 2, 4, 16]);
+        let n = 1 + r.below(max);
+        for _ in 0..n {
+            p.binds.push(BindReq { from, port: r.next() as u16, ty: if r.chance(1, 2) { 1 } else { 3 }, hlen: if r.chance(1, 6) { r.below(200) } else { r.below(12) }, delay: r.below(8) });
+        }
+        if p.eps[to].bind_buf > 0 && !r.chance(1, 10) {
+            let answers = (0..(n + 2)).map(|_| match r.below(6) { 0 => Answer::Accept, 1 => Answer::Reject, 2 => Answer::Drop, 3 => Answer::Hold, 4 => Answer::AcceptLater(r.below(3)), _ => Answer::Accept }).collect();
+            p.responders.push(Responder { ep: to, answers, yields: r.below(5), forget_after_reply: r.chance(1, 4) });
+        } else if p.eps[to].bind_buf > 0 {
+            // no responder at all: keep the requests within the buffer so the peer's task is not blocked
+            let cap = p.eps[to].bind_buf;
+            let mut k = 0;
+            p.binds.retain(|b| {
+                if b.from == from {
+                    k += 1;
+                    k <= cap
+                } else {
+                    true
+                }
+            });
+        }
+    }
+}
+fn gen_c15(r: &mut Prng, _i: u64, _t: Tier) -> Plan {
+    let mut p = base_plan(r);
+    gen_binds(r, &mut p, 6);
+    for _ in 0..r.below(3) {
+        p.streams.push(gen_stream(r, &CLEAN));
+    }
+    if r.chance(1, 3) {
+        let from = r.below(2);
+        let mut tx = gen_dgtx(r, from, 5, 4);
+        for it in &mut tx.items {
+            it.hlen = it.hlen.min(255);
+        }
+        p.dg_rx.push(DgRx { ep: 1 - tx.from, pace: vec![r.below(3)], take: None });
+        p.dg_tx.push(tx);
+    }
+    p
+}
+/// id reuse: tiny id space on both sides, binds and streams draw from it concurrently
+fn gen_c15_reuse(r: &mut Prng, _i: u64, _t: Tier) -> Plan {
+    let mut p = base_plan(r);
+    let space = 2 + r.below(5);
+    for e in &mut p.eps {
+        e.ids = (0..40).map(|_| r.below(space) as u32 + 1).collect();
+        e.retries = 1 + r.below(4);
+        e.rwnd = 4;
+        e.threshold = 2;
+        e.stream_buf = 16;
+    }
+    gen_binds(r, &mut p, 4);
+    for rsp in &mut p.responders {
+        for a in &mut rsp.answers {
+            if *a == Answer::Hold {
+                *a = Answer::Reject;
+            }
+        }
+    }
+    let hold: Prof = Prof { hold: 1000, max_writes: 4, ..CLEAN };
+    for _ in 0..(1 + r.below(4)) {
+        let mut s = gen_stream(r, &hold);
+        s.delay = r.below(30);
+        p.streams.push(s);
+    }
+    p
+}
+fn x_c15_reuse(_r: &DuoRun, _wm: &WireModel, _ei: &EndInfo, o: &mut Outcome) {
+    // a finished bind must leave its flow id free: nothing it sends later may hit a stream
+    // that legitimately re-used the id
+    let hit: Vec<String> = o.violations.iter().filter(|v| ["C07:ghost-accept", "C05:eof-unjustified", "C06:spurious-write-failure", "C02:eof-equality", "C04:stall-write", "C04:stall-read", "C04:open-stall"].contains(&v.class.as_str())).map(|v| format!("{}: {}", v.class, v.msg)).collect();
+    if let Some(h) = hit.first() {
+        o.violate("C15:id-reuse-disturbed", format!("with bind requests and streams drawing flow ids from the same small space, a stream was disturbed: {h}"));
+    }
+}
+fn nt_c15(r: &DuoRun, _wm: &WireModel, _e: &EndInfo) -> bool {
+    let led = r.led.borrow();
+    led.bind.results.iter().flatten().count() >= 1 && led.bind.seen.iter().map(|s| s.len()).sum::<usize>() >= 1
+}
+fn x_c15(r: &DuoRun, _wm: &WireModel, _ei: &EndInfo, o: &mut Outcome) {
+    let led = r.led.borrow();
+    o.probe("bind-accepted", led.bind.results.iter().flatten().filter(|x| matches!(x.1, Ok(true))).count() as u64);
+    o.probe("bind-refused", led.bind.results.iter().flatten().filter(|x| matches!(x.1, Ok(false))).count() as u64);
+    o.probe("bind-answered-out-of-order", led.bind.seen.iter().flatten().filter(|s| matches!(s.action, Answer::AcceptLater(_)) && s.reply == Some(true)).count() as u64);
+    o.probe("bind-disabled-peer", r.plan.binds.iter().filter(|b| r.plan.eps[1 - b.from.min(1)].bind_buf == 0).count() as u64);
+}
+pub fn c15() -> Check {
+    duo_check(
+        "C15",
+        "exploration",
+        vec![
+            fam("binds", 200000, 2_000_000, gen_c15, OracleCfg::default(), Some(x_c15), nt_c15, "1-6 concurrent request_bind calls from either side (types 1/3, hosts 0..200 bytes, all ports) against a peer with binds disabled or a buffer of 1..16; responder applications answer in a seeded order with accept / reject / drop / hold forever / accept later (out of order), with or without dropping the request object after the reply; stream and datagram traffic alongside. Each call's result is matched to what the responder was shown through a unique host string; flow ids are read off the wire. Non-trivial: a request was shown to the peer application and a call resolved."),
+            fam("id-reuse", 200000, 2_000_000, gen_c15_reuse, OracleCfg { accountant: false, ..OracleCfg::default() }, Some(x_c15_reuse), nt_c15, "both endpoints draw flow ids for binds and streams from a scripted space of 2-6 values, so that ids of answered binds are re-used at once by streams of either side; all streams are kept open. Any disturbance of such a stream (ghost accept, unjustified EOF, spurious write failure, stall) is a violation."),
+        ],
+        vec!["bind-accepted", "bind-refused", "bind-answered-out-of-order", "bind-disabled-peer"],
+    )
+}
+
+// ------------------------------------------------------------------ C07
+
+fn gen_c07(r: &mut Prng, _i: u64, _t: Tier) -> Plan {
+    let mut p = base_plan(r);
+    let space = 2 + r.below(5);
+    for e in &mut p.eps {
+        // scripted generators produce 0, live ids and the peer's simultaneous choice
+        e.ids = (0..60).map(|_| r.below(space + 1) as u32).collect();
+        e.retries = *r.pick(&[1usize, 2, 3, 5]);
+        e.stream_buf = 16;
+    }
+    p.link.latency_ms = 0;
+    let n = [1 + r.below(4), 1 + r.below(4)];
+    for me in 0..2 {
+        for _ in 0..n[me] {
+            let hl = match r.below(6) {
+                0 => 0,
+                1 => 1 + r.below(3),
+                2 => 256 + r.below(45),
+                _ => 4 + r.below(40),
+            };
+            let mut host = r.bytes(hl);
+            // unique prefix when long enough, so that requests are distinguishable
+            let uniq = p.streams.len() as u8;
+            if host.len() >= 4 {
+                host[0] = uniq;
+                host[1] = 0xc7;
+            }
+            // behavioural credit cross-check: against a non-reading peer exactly `peer rwnd` writes complete
+            let w: Vec<WOp> = (0..20).map(|_| WOp::Write(1)).collect();
+            p.streams.push(StreamPlan { opener: me, port: r.next() as u16, pad: 0, delay: r.below(5), after: None, raw_host: Some(host), sides: [SidePlan { w: w.clone(), r: vec![], hold: true }, SidePlan { w, r: vec![], hold: true }] });
+        }
+    }
+    p
+}
+fn x_c07(r: &DuoRun, _wm: &WireModel, ei: &EndInfo, o: &mut Outcome) {
+    if ei.any_fault {
+        return;
+    }
+    let led = r.led.borrow();
+    let l = r.link.lock().unwrap();
+    let plan = &r.plan;
+    // ---- wire discipline
+    let mut pending: [std::collections::HashMap<u32, u64>; 2] = Default::default(); // id -> connects outstanding, per requester
+    let mut live: [std::collections::HashSet<u32>; 2] = Default::default();
+    let mut connects_by_host: std::collections::HashMap<(usize, Vec<u8>, u16), Vec<u32>> = Default::default();
+    let mut collisions = 0u64;
+    let mut zero_rejected = 0u64;
+    for e in &l.evs {
+        if e.injected {
+            continue;
+        }
+        let Wire::Frame(f) = &*e.w else { continue };
+        let (from, to) = (e.from, 1 - e.from);
+        match (f, e.stage) {
+            (RFrame::Connect { id, rwnd, host, port }, Stage::Sent) => {
+                if *id == 0 {
+                    o.violate("C07:connect-id-zero", format!("endpoint {from} proposed flow id 0"));
+                }
+                if live[from].contains(id) || pending[from].get(id).copied().unwrap_or(0) > 0 {
+                    o.violate("C07:connect-id-in-use", format!("endpoint {from} proposed flow id {id:x} which it already uses"));
+                }
+                if *rwnd != plan.eps[from].rwnd {
+                    o.violate("C07:connect-rwnd", format!("Connect from endpoint {from} advertises window {rwnd}, configured {}", plan.eps[from].rwnd));
+                }
+                *pending[from].entry(*id).or_insert(0) += 1;
+                connects_by_host.entry((from, host.clone(), *port)).or_default().push(*id);
+            }
+            (RFrame::Connect { id, .. }, Stage::Consumed) => {
+                // a Connect arriving for an id that is live or pending at the receiver must be rejected
+                if *id == 0 {
+                    zero_rejected += 1;
+                } else if live[to].contains(id) || pending[to].get(id).copied().unwrap_or(0) > 0 {
+                    collisions += 1;
+                }
+            }
+            (RFrame::Ack { id, n }, Stage::Sent) => {
+                if pending[to].get(id).copied().unwrap_or(0) > 0 && !live[from].contains(id) {
+                    if *n != plan.eps[from].rwnd {
+                        o.violate("C07:handshake-rwnd", format!("handshake Acknowledge from endpoint {from} advertises window {n}, configured {}", plan.eps[from].rwnd));
+                    }
+                    live[from].insert(*id);
+                }
+            }
+            (RFrame::Ack { id, .. }, Stage::Consumed) => {
+                if let Some(c) = pending[to].get_mut(id) {
+                    if *c > 0 && !live[to].contains(id) {
+                        *c -= 1;
+                        live[to].insert(*id);
+                    }
+                }
+            }
+            (RFrame::Reset { id }, Stage::Consumed) => {
+                if let Some(c) = pending[to].get_mut(id) {
+                    if *c > 0 && !live[to].contains(id) {
+                        *c -= 1;
+                    }
+                }
+            }
+            _ => {}
+        }
+    }
+    o.probe("connect-collision-with-live-or-pending-id", collisions);
+    let _ = zero_rejected;
+    // ---- one request, one stream, correct target; retries bounded
+    for (t, s) in led.streams.iter().enumerate() {
+        let st = &plan.streams[t];
+        let me = st.opener.min(1);
+        let key = (me, st.host(t), st.port);
+        let tries = connects_by_host.get(&key).map(|v| v.len()).unwrap_or(0);
+        let same_key = plan.streams.iter().enumerate().filter(|(u, x)| x.opener.min(1) == me && x.host(*u) == key.1 && x.port == key.2).count();
+        match &s.open_ret {
+            Some((_, Ok(()))) => {
+                if s.sides[1].got_stream.is_none() {
+                    o.violate("C07:no-matching-accept", format!("stream {t}: new_stream_channel succeeded at endpoint {me} but the peer application never received a stream with the requested host ({} bytes) and port {}", key.1.len(), key.2));
+                }
+                o.probe("open-succeeded", 1);
+                if tries > 1 && same_key == 1 {
+                    o.probe("open-succeeded-after-retry", 1);
+                }
+            }
+            Some((_, Err(e))) if e.contains("FlowIdRejected") => {
+                o.probe("flow-id-rejected", 1);
+                if same_key == 1 && tries != plan.eps[me].retries {
+                    o.violate("C07:retry-count", format!("stream {t}: FlowIdRejected after {tries} Connect frames, max_flow_id_retries = {}", plan.eps[me].retries));
+                }
+                if s.sides[1].got_stream.is_some() {
+                    o.violate("C07:rejected-but-accepted", format!("stream {t}: the requester got FlowIdRejected but the peer application received a stream for it"));
+                }
+            }
+            Some((_, Err(e))) => o.violate("C07:open-error", format!("stream {t}: new_stream_channel failed with {e} on a live connection")),
+            None => {
+                if s.open_inv.is_some() {
+                    o.violate("C07:open-unresolved", format!("stream {t}: new_stream_channel at endpoint {me} still pending at quiescence"));
+                }
+            }
+        }
+        if same_key == 1 && tries > plan.eps[me].retries {
+            o.violate("C07:retry-count", format!("stream {t}: {tries} Connect frames for one request, max_flow_id_retries = {}", plan.eps[me].retries));
+        }
+        // initial send credit = the window the other side advertised (behavioural): exactly that many
+        // one-byte writes complete against a peer that never reads
+        if matches!(s.open_ret, Some((_, Ok(())))) && s.sides[1].got_stream.is_some() {
+            for side in 0..2 {
+                let ep = if side == 0 { me } else { 1 - me };
+                let done = s.sides[side].writes.iter().filter(|w| matches!(w.res, Some(Ok(1)))).count() as u32;
+                let want = plan.eps[1 - ep].rwnd.min(20);
+                if done != want {
+                    o.violate("C07:initial-credit", format!("stream {t}: endpoint {ep} completed {done} writes against a non-reading peer whose advertised window is {}", plan.eps[1 - ep].rwnd));
+                }
+            }
+        }
+    }
+}
+fn nt_c07(r: &DuoRun, _wm: &WireModel, _e: &EndInfo) -> bool {
+    let l = r.link.lock().unwrap();
+    l.evs.iter().any(|e| e.stage == Stage::Sent && matches!(&*e.w, Wire::Frame(RFrame::Reset { .. })))
+}
+pub fn c07() -> Check {
+    duo_check(
+        "C07",
+        "exploration",
+        vec![fam("crossing-opens", 300000, 3_000_000, gen_c07, OracleCfg { accountant: false, ..OracleCfg::default() }, Some(x_c07), nt_c07, "scripted flow-id RNGs on both sides draw from {0..k}, k in 2..6 (zero, live ids and the peer's simultaneous choice all occur); 1-4 concurrent new_stream_channel calls per side; hosts of 0..300 arbitrary bytes, all ports; max_flow_id_retries in {1,2,3,5}; every established stream is kept open to the end. Oracle: each successful request <-> exactly one accepted stream with the same host bytes and port (ghost or missing accepts flagged); Connect never carries id 0 or an id pending/live at its sender; Connect.rwnd / handshake Acknowledge = configured windows; exactly `peer rwnd` writes complete against a non-reading peer on both sides; FlowIdRejected exactly after max_flow_id_retries Connects. Non-trivial: at least one Reset (rejected proposal) crossed the wire.")],
+        vec!["connect-collision-with-live-or-pending-id", "open-succeeded-after-retry", "flow-id-rejected"],
+    )
+}
+use crate::link::{Stage, Wire};
+use crate::refcodec::RFrame;
+
 pub fn lookup(id: &str) -> Option<Check> {
     match id {
         "C02" => Some(c02()),
+        "C03" => Some(c03()),
+        "C04" => Some(c04()),
+        "C05" => Some(c05()),
+        "C06" => Some(c06()),
+        "C07" => Some(c07()),
+        "C11" => Some(c11()),
+        "C15" => Some(c15()),
         _ => None,
     }
 }
